@@ -44,4 +44,8 @@ func (p *Program) userFieldSort(name string) (string, bool) {
 }
 
 func (v *Verifier) addLemmas(verifDir string) {}
-func (v *Verifier) addSweeps()                {}
+func (v *Verifier) addSweeps() {
+	if v.Prop == "C20" {
+		v.addFrameObligations()
+	}
+}
